@@ -432,6 +432,7 @@ func (fc *FnCtx) mapUpdate(st *State, x *ssa.MapUpdate) {
 	hd := vc.colGet(st, dom, SArr2Bool)
 	was := mkSel(mkSel(hd, m), key)
 	ln := fc.ghostGet(st, "mapLen", SInt, m)
+	fc.ghostFrame(st, "mapLen", m, x)
 	fc.ghostSet(st, "mapLen", SInt, m, mkIte(was, ln, mkAdd(ln, "1")))
 	vc.colSet(st, dom, SArr2Bool, mkSto(hd, m, mkSto(mkSel(hd, m), key, "true")))
 	v := fc.coerce(fc.val(x.Value), vt)
@@ -453,6 +454,7 @@ func (fc *FnCtx) mapDelete(st *State, mt types.Type, m Term, k SV, instr ssa.Ins
 	hd := vc.colGet(st, dom, SArr2Bool)
 	was := mkSel(mkSel(hd, m), key)
 	ln := fc.ghostGet(st, "mapLen", SInt, m)
+	fc.ghostFrame(st, "mapLen", m, instr)
 	fc.ghostSet(st, "mapLen", SInt, m, mkIte(was, mkSub(ln, "1"), ln))
 	vc.colSet(st, dom, SArr2Bool, mkSto(hd, m, mkSto(mkSel(hd, m), key, "false")))
 }
@@ -628,6 +630,41 @@ func (fc *FnCtx) send(st *State, ch ssa.Value, v SV, pos token.Pos) {
 	fc.chanInv(st, ch, v, true, pos, "send")
 }
 
+// neverClosed: no close() in the whole package is applied to a channel loaded
+// from this struct field (and the channel is not handed to user code), so a
+// receive from it always yields a sent value.
+func (e *Engine) neverClosed(field string) bool {
+	if e.closedFields == nil {
+		e.closedFields = map[string]bool{}
+		for _, fn := range e.funcs {
+			tmp := &FnCtx{e: e, fn: fn}
+			for _, b := range fn.Blocks {
+				for _, in := range b.Instrs {
+					var c *ssa.CallCommon
+					switch x := in.(type) {
+					case *ssa.Call:
+						c = x.Common()
+					case *ssa.Defer:
+						c = x.Common()
+					case *ssa.Go:
+						c = x.Common()
+					}
+					if c == nil {
+						continue
+					}
+					if bi, ok := c.Value.(*ssa.Builtin); ok && bi.Name() == "close" {
+						e.closedFields[tmp.chanField(c.Args[0])] = true
+					}
+				}
+			}
+		}
+	}
+	if !strings.Contains(field, ".") {
+		return false // not a struct field: unknown provenance
+	}
+	return !e.closedFields[field]
+}
+
 func (fc *FnCtx) recv(st *State, ch ssa.Value, commaOk bool, resT types.Type, pos token.Pos) SV {
 	vc := fc.vc
 	et := ch.Type().Underlying().(*types.Chan).Elem()
@@ -639,6 +676,9 @@ func (fc *FnCtx) recv(st *State, ch ssa.Value, commaOk bool, resT types.Type, po
 	fc.timerRecv(st, ch, "true")
 	fc.joinRecv(st, ch, "true")
 	okc := vc.fresh("recv_ok", SBool)
+	if fc.e.neverClosed(fc.chanField(ch)) {
+		vc.assume(st, okc)
+	}
 	sub := st.clone()
 	sub.guard = vc.define("g_recv", SBool, mkAnd(st.guard, okc))
 	fc.chanInv(sub, ch, v, false, pos, "recv")
@@ -678,6 +718,9 @@ func (fc *FnCtx) selectStmt(st *State, x *ssa.Select) {
 		et := s.Chan.Type().Underlying().(*types.Chan).Elem()
 		v := vc.havoc(et, fmt.Sprintf("sel%d", k), st.alloc)
 		okc := vc.fresh("selrecv_ok", SBool)
+		if fc.e.neverClosed(fc.chanField(s.Chan)) {
+			vc.assume(sub, okc)
+		}
 		vsub := sub.clone()
 		vsub.guard = vc.define("g_selv", SBool, mkAnd(sub.guard, okc))
 		fc.chanInv(vsub, s.Chan, v, false, s.Pos, "recv")
